@@ -186,6 +186,55 @@ def detect(sid, checks=None, patch_dir=None):
     return 0
 
 
+def detect_copy(sid, checks=None, patch_dir=None):
+    """Same verdicts as `detect`, but on a scratch copy of /repo's HEAD (outside /repo and /verif) analysed with
+    `verif check --repo <copy>`, so that several seeds can be processed in parallel and /repo is never touched."""
+    import hashlib
+    d = patch_dir or os.path.join(VERIF, "seeded", sid)
+    man = json.load(open(os.path.join(VERIF, "MANIFEST.json")))
+    props = checks or [c["property_id"] for c in man["checks"]]
+    root = "/var/tmp/seedrun"
+    os.makedirs(root, exist_ok=True)
+    copy = os.path.join(root, sid)
+    shutil.rmtree(copy, ignore_errors=True)
+    os.makedirs(copy)
+    rc, out = sh("git -C /repo archive HEAD | tar -x -C %s" % copy)
+    if rc != 0:
+        print("archive failed", out)
+        return 2
+    rc, out = sh("patch -p1 -s -d %s < %s/patch.diff" % (copy, d))
+    if rc != 0:
+        print(sid, "patch does not apply:", out[:300])
+        shutil.rmtree(copy, ignore_errors=True)
+        return 2
+    res = {}
+    alt = os.path.join(VERIF, "build", "alt", hashlib.sha256(copy.encode()).hexdigest()[:12])
+    try:
+        env = dict(os.environ, VERIF_NO_SELFTEST="1")
+        for p in props:
+            pr = subprocess.run([os.path.join(VERIF, "verif"), "check", p, "--repo", copy], stdout=subprocess.PIPE, stderr=subprocess.STDOUT, cwd=VERIF, env=env)
+            out = pr.stdout.decode("utf-8", "replace")
+            lines = [l for l in out.splitlines() if (l.startswith("  ") and "[" in l) or l.startswith("ANALYSIS-BROKEN")][:3]
+            res[p] = {"rc": pr.returncode, "first_reports": [l.strip()[:300].replace(copy, "/repo") for l in lines]}
+    finally:
+        shutil.rmtree(copy, ignore_errors=True)
+        shutil.rmtree(alt, ignore_errors=True)
+    mp = os.path.join(d, "meta.json")
+    meta = json.load(open(mp)) if os.path.exists(mp) else {"id": sid}
+    meta["checks_run_against_patched_repo"] = res
+    meta["detected_by"] = sorted(p for p, r in res.items() if r["rc"] == 1)
+    meta["detect_ran_at"] = time.strftime("%Y-%m-%d %H:%M:%S")
+    meta["detect_mode"] = "scratch copy of /repo HEAD + patch, verif check --repo <copy> (same engines; /repo untouched)"
+    if not patch_dir:
+        json.dump(meta, open(mp, "w"), indent=1)
+    print(sid, "detected by:", meta["detected_by"], {p: r["rc"] for p, r in res.items() if r["rc"] != 0})
+    for p in meta["detected_by"]:
+        for l in res[p]["first_reports"][:1]:
+            print("   ", p, l[:200])
+    sys.stdout.flush()
+    return 0
+
+
 if __name__ == "__main__":
     if sys.argv[1] == "confirm":
         if "--build" in sys.argv:
@@ -194,5 +243,9 @@ if __name__ == "__main__":
             confirm(sys.argv[2], sys.argv[3], "--tsan" in sys.argv)
     elif sys.argv[1] == "detect":
         sys.exit(detect(sys.argv[2], sys.argv[3:] or None))
+    elif sys.argv[1] == "detect-copy":
+        sys.exit(detect_copy(sys.argv[2], sys.argv[3:] or None))
+    elif sys.argv[1] == "detect-copy-raw":
+        sys.exit(detect_copy(sys.argv[2], None, sys.argv[3]))
     elif sys.argv[1] == "detect-raw":
         sys.exit(detect(sys.argv[2], None, sys.argv[3]))
